@@ -276,6 +276,72 @@ def run_case(ctx, rep, case, base, model_ok):
     shutil.rmtree(path, ignore_errors=True)
 
 
+def _late_transactions(ctx, rep, base):
+    """a transaction that STARTS while the collection is already running: after each gated operation k of the collector, a whole
+    transaction (queue a data file, commit) runs; the file is (a) written by the transaction itself — young, protected by the grace
+    period — or (b) a PRE-BUILT file already older than the grace period, protected by nothing but its marker"""
+    from datashard.data_structures import DataFile, FileFormat
+    import pyarrow as pa
+    import pyarrow.parquet as pq
+    stride = 1 if (ctx.thorough or ctx.intensify) else 2
+    for variant in ("own-file", "prebuilt-old-file"):
+        k = 0
+        while k < 80:
+            path = os.path.join(base, f"late-{variant}-{k}")
+            t0 = tablekit.create(path)
+            t0.append_records(tablekit.rows(2, tag="init"))
+            for rel in [r_ for r_ in reader.DirStore(path).list() if r_.startswith("data/") or r_.startswith("metadata/manifests/")]:
+                _age(path, rel)
+            h, g = tablekit.load(path), tablekit.load(path)
+            if variant == "prebuilt-old-file":
+                sch_ = h.file_manager.data_file_manager.create_arrow_schema(tablekit.schema())
+                pq.write_table(pa.table({"id": [4000], "name": ["late"]}, schema=sch_), os.path.join(path, "data/late.parquet"))
+                _age(path, "data/late.parquet")
+
+            def choose(s, ready, k=k):
+                n9 = len([1 for a, _w in s.trace if a == 9])
+                if n9 < k and 9 in ready:
+                    return 9
+                if 1 in ready:
+                    return 1
+                return sorted(ready)[0]
+            S = sched.Sched(choose, watchdog_s=40)
+            vstore.instrument_table(h, S)
+            vstore.instrument_table(g, S)
+
+            def tx_body():
+                if variant == "own-file":
+                    return h.append_records(tablekit.rows(1, start=4000, tag="late_"))
+                return h.append_data([DataFile(file_path="/data/late.parquet", file_format=FileFormat.PARQUET, partition_values={}, record_count=1,
+                                               file_size_in_bytes=os.path.getsize(os.path.join(path, "data/late.parquet")))])
+            restore = c01._patch_sleep(S)
+            try:
+                with c01._NoBackoff(S):
+                    res = S.run({1: tx_body, 9: lambda: g.garbage_collect(grace_period_ms=GRACE_MS)})
+            except sched.Stuck as e:
+                rep.notes.append(f"late transaction {variant} k={k} stuck: {e}")
+                break
+            finally:
+                restore()
+            gates9 = len([1 for a, _w in S.trace if a == 9])
+            rep.evaluations += 1
+            rep.nontrivial(["late-tx", variant, k])
+            rep.distribution[f"late-tx:{variant}"] += 1
+            case = {"kind": "transaction-started-during-the-collection", "file": variant, "whole_transaction_after_collector_op": k,
+                    "transaction": res[1][0], "collection": res[9][0]}
+            committed = res[1][0] == "ok"
+            try:
+                reader.view(path)
+            except reader.Broken as e:
+                rep.violate("C06:file-of-a-transaction-that-started-during-the-run-deleted" if variant == "prebuilt-old-file" else "C06:committed-file-deleted-by-concurrent-gc",
+                            f"{variant}: the whole transaction ran after operation #{k} of the collection (grace 60 s, run far shorter); it "
+                            f"{'committed' if committed else 'raised'}; the table now: {e}", case)
+            shutil.rmtree(path, ignore_errors=True)
+            if k >= gates9:
+                break
+            k += stride
+
+
 def _two_collections(ctx, rep, base):
     """one long transaction, TWO collections: the first while the data file is being written (its marker exists, the file does not
     yet), the second — after the file has aged past the grace period — inside the commit, before the pointer moves"""
@@ -398,6 +464,7 @@ def run(ctx, model_ok):
                     break
                 k += 1 if (ctx.thorough or ctx.intensify) else 2
         _two_collections(ctx, rep, base)
+        _late_transactions(ctx, rep, base)
         for c in cases(ctx):
             try:
                 run_case(ctx, rep, c, base, model_ok)
